@@ -537,3 +537,113 @@ M("C11", DI, """        if isinstance(newbase, Product):
 M("C11", CL, """        elif isinstance(mul_term, (Power, AlgebraicLeaf, Quotient)):""", """        elif isinstance(mul_term, (Power, AlgebraicLeaf)):""", "revert of fix 9a681b5 (quotient summand)")
 M("C11", DI, """                       dist(pymbolic.flattened_product(
                            [*leading, sumchild, rest]))""", """                       pymbolic.flattened_product(leading) * dist(sumchild*rest)""", "revert of fix 1c69677 (leading factors)")
+
+MI = "pymbolic/mapper/__init__.py"
+M("C04", MI, """        for child in expr.parameters:
+            self.rec(child, *args, **kwargs)
+
+        for child in list(expr.kw_parameters.values()):
+            self.rec(child, *args, **kwargs)""", """        for child in expr.parameters:
+            self.rec(child, *args, **kwargs)""", "walk forgets kw-arguments")
+M("C04", MI, """        self.rec(expr.condition, *args, **kwargs)
+        self.rec(expr.then, *args, **kwargs)
+        self.rec(expr.else_, *args, **kwargs)
+
+        self.post_visit(expr, *args, **kwargs)
+
+    def map_if_positive""", """        self.rec(expr.condition, *args, **kwargs)
+        self.rec(expr.then, *args, **kwargs)
+
+        self.post_visit(expr, *args, **kwargs)
+
+    def map_if_positive""", "walk forgets the else branch")
+M("C04", MI, """    def map_lookup(self, expr, *args, **kwargs):
+        if not self.visit(expr, *args, **kwargs):
+            return
+
+        self.rec(expr.aggregate, *args, **kwargs)
+
+        self.post_visit(expr, *args, **kwargs)""", """    def map_lookup(self, expr, *args, **kwargs):
+        self.rec(expr.aggregate, *args, **kwargs)
+
+        if not self.visit(expr, *args, **kwargs):
+            return
+
+        self.post_visit(expr, *args, **kwargs)""", "visit after the children (lookup)")
+M("C04", MI, """        if (function is expr.function
+            and all(child is orig_child
+                for child, orig_child in zip(expr.parameters, parameters))):
+            return expr
+
+        return type(expr)(function, parameters)""", """        if (function is expr.function
+            and all(child is orig_child
+                for child, orig_child in zip(expr.parameters, expr.parameters))):
+            return expr
+
+        return type(expr)(function, parameters)""", "unchanged-test compares the old parameters with themselves")
+M("C04", MI, """            for cls in type(expr).__mro__[1:]:
+                method_name = getattr(cls, "mapper_method", None)
+                if method_name:
+                    method = getattr(self, method_name, None)
+                    if method:
+                        return method(expr, *args, **kwargs)
+            else:
+                return self.handle_unsupported_expression(expr, *args, **kwargs)
+        else:
+            return self.map_foreign(expr, *args, **kwargs)
+
+    rec = __call__""", """            for cls in type(expr).__mro__[2:]:
+                method_name = getattr(cls, "mapper_method", None)
+                if method_name:
+                    method = getattr(self, method_name, None)
+                    if method:
+                        return method(expr, *args, **kwargs)
+            else:
+                return self.handle_unsupported_expression(expr, *args, **kwargs)
+        else:
+            return self.map_foreign(expr, *args, **kwargs)
+
+    rec = __call__""", "MRO fallback starts at [2:]")
+M("C04", MI, """        if isinstance(expr, primitives.VALID_CONSTANT_CLASSES):
+            return self.map_constant(expr, *args, **kwargs)
+        elif is_numpy_array(expr):""", """        if isinstance(expr, primitives.VALID_CONSTANT_CLASSES):
+            return self.map_constant(expr, *args)
+        elif is_numpy_array(expr):""", "kwargs dropped for constants")
+M("C04", MI, """        return self.combine((
+            self.rec(expr.function, *args, **kwargs),
+            *[self.rec(child, *args, **kwargs) for child in expr.parameters],
+            *[self.rec(child, *args, **kwargs)
+              for child in expr.kw_parameters.values()]
+            ))""", """        return self.combine((
+            self.rec(expr.function, *args, **kwargs),
+            *[self.rec(child, *args, **kwargs) for child in expr.parameters],
+            ))""", "combine forgets kw-argument values")
+M("C04", MI, """            None if child is None else self.rec(child, *args, **kwargs)
+            for child in expr.children
+            ])
+        if all(child is orig_child""", """            None if child is None else self.rec(child, *args, **kwargs)
+            for child in expr.children[:2]
+            ])
+        if all(child is orig_child""", "identity drops the slice step")
+M("C04", PR, """    if not sets_mapper_method:
+        cls.mapper_method = intern(default_mapper_method_name)""", """    if not sets_mapper_method and not hasattr(cls, "mapper_method"):
+        cls.mapper_method = intern(default_mapper_method_name)""", "derived name does not replace an inherited one")
+M("C04", MI, """        for child in expr.children:
+            if child is not None:
+                self.rec(child, *args, **kwargs)
+""", """        if expr.start is not None:
+            self.rec(expr.start, *args, **kwargs)
+        if expr.stop is not None:
+            self.rec(expr.stop, *args, **kwargs)
+        if expr.step is not None:
+            self.rec(expr.step, *args, **kwargs)
+""", "revert of fix 590ba4e (slice walk)")
+M("C04", MI, """        if not self.visit(expr, *args, **kwargs):
+            return
+
+        self.rec(expr.child, *args, **kwargs)
+        for v in expr.values:""", """        if not self.visit(expr):
+            return
+
+        self.rec(expr.child, *args, **kwargs)
+        for v in expr.values:""", "revert of fix e81255c (substitution extra args)")
